@@ -147,8 +147,9 @@ CLAIMED = {
         technique='effect system by abstract interpretation: the domain represents only linear forms; slice '
                   'provenance of every output cell',
         text='Every public entry point (DWT/SWT/DTCWT modules with options, functional and non-separable banks incl. '
-             'negative-dim spellings, DTCWT low-level filters) is interpreted with (N,C)=(2,3) and (1,1): any '
-             'non-linear primitive, added constant, non-zero pad value, bias, reduction or branch on tensor contents '
+             'negative-dim spellings, DTCWT low-level filters) is interpreted with (N,C)=(2,3) and (1,1) (and, on tiny '
+             'extents, with (7,2) and (2,7) so that an index landing on the wrong axis mixes slices instead of raising): any '
+             'non-linear primitive, added constant (incl. constant-filled or uninitialised tensors), non-zero pad value, bias, reduction or branch on tensor contents '
              'is reported with its statement; every output cell must read only the input slice with its own (n,c), '
              'through one operator shared by all slices and independent of N and C. This decides linearity, '
              'homogeneity and per-slice action for all inputs.',
@@ -161,7 +162,7 @@ CLAIMED = {
         text='No in-place primitive may target storage owned by an argument, buffer, parameter or cached table '
              '(views followed); caller lists may not be mutated; module / global / class / function-attribute writes '
              'during a call are tracked; results must be identical on repetition, with requires_grad set, and inside '
-             'arbitrary call sequences vs a fresh process (sequences are escalated to all ordered pairs for entry '
+             'arbitrary call sequences vs a fresh process and on one module instance called with varying batch / channel / size vs fresh instances, earlier results must not change when the instance is called again, no result may read uninitialised memory (sequences are escalated to all ordered pairs for entry '
              'kinds that write persistent state); no call site of a process-wide torch state setter exists in the '
              'package. Thread-independence is the corollary that the only shared objects are read-only buffers and '
              'the idempotent table cache.',
@@ -169,12 +170,12 @@ CLAIMED = {
     'C16': dict(
         level='other', design='DESIGN.md 4/C16',
         technique='dtype-provenance and contiguity analysis by abstract interpretation',
-        text='Decides clauses 1 and 3 of the property: every returned tensor has the input dtype, every factory / '
+        text='Decides clauses 1 and 3 of the property (forward passes and every hand-written backward reached): every returned tensor / gradient / placeholder has the input dtype, every factory / '
              'cast on a data path derives its dtype from the input, every convolution weight on a module path is a '
              'registered buffer/parameter (so .double()/.float() converts it), and no .view() is applied to '
              'input-strided data (non-contiguous inputs give the same operator). Clause 2 (float32 accuracy bound) '
              'is NOT decided: no static argument in reach bounds rounding error; only the necessary condition '
-             '"no narrowing cast on a data path" is enforced.',
+             '"no narrowing cast on a data path" and "no torch.finfo(dtype) constant reaches a value or decides a branch" are enforced.',
         note=TB + ' Assumes the module was converted to the dtype of its input.'),
     'C08': dict(
         level='other', design='DESIGN.md 4/C08',
@@ -195,7 +196,7 @@ CLAIMED = {
              'order) and SmoothMagFn (every grad subset): the backward, never executed by the test-suite, is '
              'interpreted on a symbolic cotangent and must coincide with the reverse-mode derivative of the forward '
              'as a set of paths [linear operator, pointwise factor]*; every division / square root on forward, saved '
-             'tensors and backward is bounded away from zero by b > 0 (finite at the zero image).',
+             'tensors and backward is bounded away from zero by b > 0 (finite at the zero image); odd sizes included; backward may not write to tensors left on ctx (repeatable backward).',
         note=TB + ' Equality of linear stages is modulo the table symmetries discharged by C18.'),
 }
 
